@@ -59,6 +59,7 @@ type Stats struct {
 	Rounded        int
 	MaxDecisions   int
 	Steps          int64
+	InitTime       time.Duration
 	SolverQueries  int
 	SolverTime     time.Duration
 	SolverUnknown  int
@@ -439,7 +440,9 @@ func (ex *Explorer) runPath(w *worker, item workItem) {
 				outcome, detail = "internal", fmt.Sprintf("%T: %v\n%s", r, r, debug.Stack())
 			}
 		}()
+		tInit := time.Now()
 		i.runInits()
+		c.initDur = time.Since(tInit)
 		call(i, nil, ex.harness.Pos(), ex.harness, nil)
 	}()
 
@@ -478,6 +481,7 @@ func (ex *Explorer) runPath(w *worker, item workItem) {
 	ex.mergeFuncs(i.fnSeen)
 	ex.mu.Lock()
 	ex.St.Steps += int64(c.steps)
+	ex.St.InitTime += c.initDur
 	if len(c.trace) > ex.St.MaxDecisions {
 		ex.St.MaxDecisions = len(c.trace)
 	}
@@ -588,7 +592,7 @@ func (i *interpreter) vAssert(id string, cv value, detail string) {
 	var known *expr
 	var knownIDs []string
 	for _, k := range ex.Known {
-		if k.Harness == ex.hname && k.Assert == id {
+		if (k.Harness == ex.hname || k.Harness == "*") && k.Assert == id {
 			if kc, ok := c.known[k.ID]; ok {
 				knownIDs = append(knownIDs, k.ID)
 				if known == nil {
@@ -711,9 +715,9 @@ func (ex *Explorer) SortedAbortDetails() []string {
 
 func (ex *Explorer) PrintSummary(w *os.File) {
 	st := &ex.St
-	fmt.Fprintf(w, "harness %s: paths=%d panic_paths=%d aborted=%v branches=%d (both=%d unknown=%d) queries=%d solver=%.1fs maxq=%.2fs wall=%.1fs steps=%d maxdec=%d truncated=%v\n",
+	fmt.Fprintf(w, "harness %s: paths=%d panic_paths=%d aborted=%v branches=%d (both=%d unknown=%d) queries=%d solver=%.1fs maxq=%.2fs wall=%.1fs steps=%d maxdec=%d truncated=%v init_cpu=%.1fs\n",
 		ex.hname, st.Paths, st.PanicPaths, st.Aborted, st.Branches, st.BranchesBoth, st.UnknownBranch, st.SolverQueries,
-		st.SolverTime.Seconds(), st.SolverMaxQuery.Seconds(), st.Wall.Seconds(), st.Steps, st.MaxDecisions, ex.Truncated)
+		st.SolverTime.Seconds(), st.SolverMaxQuery.Seconds(), st.Wall.Seconds(), st.Steps, st.MaxDecisions, ex.Truncated, st.InitTime.Seconds())
 	var ids []string
 	for id := range st.Asserts {
 		ids = append(ids, id)
